@@ -13,24 +13,24 @@ open GocoinV.Gen.Field5x52
 abbrev P : Nat := GocoinV.Gen.CurveConsts.p
 
 /-- the integer a 5x52 limb vector stands for -/
-def Fe.val (a : Fe) : Nat :=
+def _root_.GocoinV.Gen.Field5x52.Fe.val (a : Fe) : Nat :=
   a.n0 + a.n1 * 2^52 + a.n2 * 2^104 + a.n3 * 2^156 + a.n4 * 2^208
 
 /-- libsecp256k1's magnitude contract: every limb at most `2·m` times its canonical maximum -/
-def Fe.mag (a : Fe) (m : Nat) : Prop :=
+def _root_.GocoinV.Gen.Field5x52.Fe.mag (a : Fe) (m : Nat) : Prop :=
   a.n0 ≤ 2 * m * (2^52 - 1) ∧ a.n1 ≤ 2 * m * (2^52 - 1) ∧ a.n2 ≤ 2 * m * (2^52 - 1) ∧
   a.n3 ≤ 2 * m * (2^52 - 1) ∧ a.n4 ≤ 2 * m * (2^48 - 1)
 
-instance (a : Fe) (m : Nat) : Decidable (Fe.mag a m) := by unfold Fe.mag; exact inferInstance
+instance (a : Fe) (m : Nat) : Decidable (Fe.mag a m) := by unfold GocoinV.Gen.Field5x52.Fe.mag; exact inferInstance
 
 /-- canonical limbs: 52/52/52/52/48 bits (value < 2^256; not necessarily < p) -/
-def Fe.canon (a : Fe) : Prop :=
+def _root_.GocoinV.Gen.Field5x52.Fe.canon (a : Fe) : Prop :=
   a.n0 < 2^52 ∧ a.n1 < 2^52 ∧ a.n2 < 2^52 ∧ a.n3 < 2^52 ∧ a.n4 < 2^48
 
-instance (a : Fe) : Decidable (Fe.canon a) := by unfold Fe.canon; exact inferInstance
+instance (a : Fe) : Decidable (Fe.canon a) := by unfold GocoinV.Gen.Field5x52.Fe.canon; exact inferInstance
 
 /-- all limbs are 64-bit words (the only thing the Go type guarantees) -/
-def Fe.w64 (a : Fe) : Prop :=
+def _root_.GocoinV.Gen.Field5x52.Fe.w64 (a : Fe) : Prop :=
   a.n0 < 2^64 ∧ a.n1 < 2^64 ∧ a.n2 < 2^64 ∧ a.n3 < 2^64 ∧ a.n4 < 2^64
 
 /-- a Go `[]byte` of length ≥ 32 seen as an index function (what `SetB32` reads) -/
@@ -49,11 +49,11 @@ def toB32 (v : Nat) : List Nat :=
   (List.range 32).map fun i => (v / 256 ^ (31 - i)) % 256
 
 /-- field element with canonical limbs for a value < 2^256 (this is what `SetB32 ∘ toB32` computes) -/
-def Fe.ofNat (v : Nat) : Fe := setB32L (toB32 v)
+def _root_.GocoinV.Gen.Field5x52.Fe.ofNat (v : Nat) : Fe := setB32L (toB32 v)
 
-def Fe.toList (a : Fe) : List Nat := [a.n0, a.n1, a.n2, a.n3, a.n4]
+def _root_.GocoinV.Gen.Field5x52.Fe.toList (a : Fe) : List Nat := [a.n0, a.n1, a.n2, a.n3, a.n4]
 
-def Fe.ofList : List Nat → Fe
+def _root_.GocoinV.Gen.Field5x52.Fe.ofList : List Nat → Fe
   | [a, b, c, d, e] => ⟨a, b, c, d, e⟩
   | _ => ⟨0, 0, 0, 0, 0⟩
 
